@@ -757,6 +757,59 @@ def run_behind_incomplete(ctx, case):
     finish_history(ctx, case, hist, problems)
 
 
+def run_trickle(ctx, case):
+    """a 4-byte character that trickles in while a request is blocked: two bytes, then a third -
+    still no keypress - and the last byte only after the request has given up. The request
+    returns None, not before its timeout, and nothing is lost."""
+    R = rig()
+    u = case["unit"]
+    pieces = [u[:2], u[2:3], u[3:]]
+    to = case["timeout"]
+    R.pty.drain_slave()
+    inp = R.ci.Input(R.pty.stream, keynames="bytes", paste_threshold=case["paste_threshold"])
+    hist, problems = [], []
+    lock = threading.Lock()
+
+    def req(timeout):
+        t0 = time.monotonic()
+        try:
+            ret = describe(inp.send(timeout))
+        except Exception as ex:  # noqa
+            ret = ("raise", type(ex).__name__, str(ex)[:120])
+        with lock:
+            hist.append({"k": "req", "timeout": timeout, "t0": t0, "t1": time.monotonic(), "w0": 0, "w1": 0, "ret": ret})
+        return ret
+
+    def later():
+        for p_ in pieces[:2]:
+            time.sleep(to * case["gap"])
+            with lock:
+                hist.append({"k": "write", "data": p_, "t": time.monotonic()})
+            os.set_blocking(R.pty.master, True)
+            os.write(R.pty.master, p_)
+    th = threading.Thread(target=later)
+    try:
+        with inp:
+            th.start()
+            ret = req(to)
+            th.join(5)
+            if ret[0] not in ("none", "raise"):
+                problems.append(("bytes", {"what": "a request returned %r before the character was complete" % (summarize(ret),)}))
+            if R.pty.feed(pieces[2]):
+                hist.append({"k": "write", "data": pieces[2], "t": time.monotonic()})
+            for _ in range(6):
+                if req(0.002)[0] in ("none", "raise"):
+                    break
+    except Exception as ex:  # noqa
+        problems.append(("raise", {"outside request": repr(ex)}))
+    finally:
+        if th.is_alive():
+            th.join(5)
+    problems += inputq.check(hist, drained=True, concurrent=False)
+    ctx.count("trickled_keypresses")
+    finish_history(ctx, case, hist, problems)
+
+
 def run_flood(ctx, case):
     """tens of kilobytes written by another thread while the requesting thread keeps asking:
     the kernel hands the burst out in pieces of its own choosing (4095 bytes at most), so
@@ -1183,6 +1236,8 @@ def run_case(ctx, case):
         run_prefixchar(ctx, case)
     elif case["kind"] == "lateunit":
         run_lateunit(ctx, case)
+    elif case["kind"] == "trickle":
+        run_trickle(ctx, case)
     elif case["kind"] == "behind-incomplete":
         run_behind_incomplete(ctx, case)
     elif case["kind"] == "split":
@@ -1209,6 +1264,10 @@ def run(ctx):
     for _ in range(ctx.share(200 if quick else 8000)):
         run_split(ctx, gen_split(rng, R))
         ctx.count("split_keypress_histories")
+    for _ in range(ctx.share(16 if quick else 600)):
+        run_trickle(ctx, {"kind": "trickle", "unit": chr(rng.choice([0x1F600, 0x10348, 0x1F40D])).encode("utf-8"),
+                          "timeout": rng.choice([0.3, 0.5]), "gap": rng.choice([0.15, 0.25, 0.3]),
+                          "paste_threshold": rng.choice([None, 8])})
     for _ in range(ctx.share(80 if quick else 3000)):
         run_behind_incomplete(ctx, gen_behind_incomplete(rng, R))
         ctx.count("bursts_behind_incomplete_keypress")
